@@ -65,6 +65,7 @@ FUNCS = [  # (lean name, file, class, method, translator key, lean type)
     ("engBase", "statemachine/engines/base.py", None, "eng", "eng", "E.EngScript"),
     ("factory", "statemachine/factory.py", None, "factory", "factory", "F.FactoryScript"),
     ("specs", "statemachine/callbacks.py", None, "specs", "specs", "P.SpecScript"),
+    ("surface", "statemachine/state.py", None, "surface", "surface", "U.SurfaceScript"),
 ]
 ASYNC_DEF = {"activateAsync", "triggerAsync", "processAsync", "wrapperDunder", "execAsyncCall", "execAsyncAll"}
 
@@ -2096,6 +2097,53 @@ def tr_spec(repo):
             + ",\n  specEq := .funcGroupExpected, listAdd := " + la + f",\n  groupKeyPerOwnerList := {B(key_ok)}, sameEventIsEquality := {B(same_ok)} }}")
 
 
+# ----------------------------------------------------------------------------------------- special methods, identity
+
+def tr_surface(repo):
+    dunders = []
+    for rel in sorted(_all_sources(repo)):
+        try:
+            tree = ast.parse(_read(os.path.join(repo, rel), repo))
+        except SyntaxError as e:
+            raise Untranslatable(f"cannot parse {rel}: {e}")
+        for c in tree.body:
+            if isinstance(c, ast.ClassDef):
+                d = sorted(x.name for x in c.body if isinstance(x, (ast.FunctionDef, ast.AsyncFunctionDef))
+                           and x.name.startswith("__") and x.name.endswith("__"))
+                dunders.append((rel[len("statemachine/"):], c.name, d))
+    M = lambda cls, name: method(repo, "statemachine/state.py", cls, name)
+
+    def body(fn, table, what):
+        t = "\n".join(ntext(x) for x in _body(fn))
+        if t not in table:
+            raise Untranslatable(f"{what}: {t!r}")
+        return table[t]
+    st_eq = body(M("State", "__eq__"), {"return isinstance(other, State) and self.name == other.name and (self.id == other.id)":
+                                        ".stateEqByNameAndId"}, "State.__eq__")
+    st_hash = body(M("State", "__hash__"), {"return hash(repr(self))": ".hashOfRepr"}, "State.__hash__")
+    st_get = body(M("State", "__get__"), {"if machine is None:\n    return self\n"
+                                          "return self.for_instance(machine=machine, cache=machine._states_for_instance)":
+                                          ".classGivesStateInstanceGivesInstanceState"}, "State.__get__")
+    fi = body(M("State", "for_instance"), {"if self not in cache:\n    cache[self] = InstanceState(self, machine)\nreturn cache[self]":
+                                            ".oneInstanceStatePerMachine"}, "State.for_instance")
+    sid = body(M("State", "_set_id"), {"self._id = id\nif self.value is None:\n    self.value = id\nif not self.name:\n"
+                                        "    self.name = self._id.replace('_', ' ').capitalize()": ".idThenDefaultValueAndName"},
+               "State._set_id")
+    i_eq = body(M("InstanceState", "__eq__"), {"return self._state() == other": ".delegateEqToState"}, "InstanceState.__eq__")
+    i_hash = body(M("InstanceState", "__hash__"), {"return hash(repr(self._state()))": ".hashOfStateRepr"}, "InstanceState.__hash__")
+    fn = M("InstanceState", "is_active")
+    if [ast.unparse(d) for d in fn.decorator_list] != ["property"]:
+        raise Untranslatable("is_active is not a property")
+    act = body(fn, {"return self._machine().current_state == self": ".activeIffCurrent"}, "InstanceState.is_active")
+    eg = body(method(repo, "statemachine/event.py", "Event", "__get__"),
+              {"if instance is None:\n    return self\nreturn BoundEvent(id=self.id, name=self.name, _sm=instance)":
+               ".freshBoundEventPerAccess"}, "Event.__get__")
+    dl = ",\n    ".join(f'("{r}", "{c}", {_strlist(d)})' for r, c, d in dunders)
+    return ("{\n  dunders := [\n    " + dl + "],\n  stateEq := " + st_eq + ", stateHash := " + st_hash + ", stateGet := " + st_get
+            + ",\n  forInstance := " + fi + ", setId := " + sid + ",\n  instEq := " + i_eq + ", instHash := " + i_hash
+            + ", isActive := " + act + ", eventGet := " + eg + " }")
+
+
 TRANSLATORS = {"eventcall": tr_eventcall, "send": tr_send, "start": tr_start, "injected": tr_injected,
                "activate": tr_activate, "trigger": tr_trigger, "process": tr_process, "wrapper": tr_wrapper,
                "executor": tr_executor, "bind": tr_bind,
@@ -2134,6 +2182,8 @@ def _translate_one(repo, name, rel, cls, meth, key, ty):
             return (ty, tr_factory(repo), None)
         if key == "specs":
             return (ty, tr_spec(repo), None)
+        if key == "surface":
+            return (ty, tr_surface(repo), None)
         if key == "injected":
             if [ast.unparse(d) for d in fn.decorator_list] != ["property"]:
                 raise Untranslatable("extended_kwargs is not a property")
@@ -2302,6 +2352,11 @@ SELFTEST_EDITS = [
     ("statemachine/callbacks.py", "    NAMING = 30", "    NAMING = 15"),
     ("statemachine/event.py", "        return self == event\n", "        return event is None or self == event\n"),
     ("statemachine/state.py", "        self.exit.add(f\"on_exit_{self.id}\", priority=CallbackPriority.NAMING, is_convention=True)", "        self.exit.add(f\"on_exit_{self.id}\", priority=CallbackPriority.GENERIC, is_convention=True)"),
+    ("statemachine/event.py", "    def __repr__(self):\n        return f\"{type(self).__name__}({self.id!r})\"\n", "    def __repr__(self):\n        return f\"{type(self).__name__}({self.id!r})\"\n\n    def __deepcopy__(self, memo):\n        return self\n"),
+    ("statemachine/transition_list.py", "    def _on_event_defined(self, event: str, states: List[\"State\"]):", "    def __ior__(self, other):\n        return self.add_transitions(other)\n\n    def _on_event_defined(self, event: str, states: List[\"State\"]):"),
+    ("statemachine/state.py", "        return isinstance(other, State) and self.name == other.name and self.id == other.id", "        return (isinstance(other, State) and self.name == other.name and self.id == other.id) or other == self.value"),
+    ("statemachine/state.py", "        return self._machine().current_state == self", "        return self._machine().current_state_value == self.value"),
+    ("statemachine/event.py", "        return BoundEvent(id=self.id, name=self.name, _sm=instance)", "        return instance.__dict__.setdefault(\"_ev_\" + self.id, BoundEvent(id=self.id, name=self.name, _sm=instance))"),
 ]
 
 
@@ -2414,6 +2469,7 @@ import SMV.Src.IRDiagram
 import SMV.Src.IREng
 import SMV.Src.IRFactory
 import SMV.Src.IRSpec
+import SMV.Src.IRSurface
 /-! GENERATED by `harness/srcgen.py --write-expected` from the tree the theorems of `SMV/Src/Tie.lean` were
 proved for. Do not edit by hand. -/
 """
